@@ -113,6 +113,17 @@ func (in *Interp) mergeShapeOf(b *ssa.BasicBlock) *mergeShape {
 		if !isBasicScalar(phi.Type()) {
 			return s
 		}
+		// Go's int/uint are the types of lengths, indices and offsets: a merged
+		// (ite) value of such a type soon lands in a slice bound or an index and
+		// makes the shape symbolic, which costs far more than the fork saved
+		// (sort.Search's i/j, an iterator's read position).  Fixed-width
+		// integers, bytes and bools carry data and are merged.
+		if b, ok := phi.Type().Underlying().(*types.Basic); ok {
+			switch b.Kind() {
+			case types.Int, types.Uint, types.Uintptr:
+				return s
+			}
+		}
 	}
 	s.ok = true
 	return s
